@@ -89,11 +89,11 @@ HasHead(layers) == \E j \in 1..Len(layers) : layers[j].k \in {"argmax", "class_c
 OnlyRelu(layers) == \A j \in 1..Len(layers) : layers[j].k \in {"linear", "relu"}
 \* exactly representable universe: every parameter is a dyadic rational (hard_sigmoid's 1/6 is not)
 ExactUniverse(layers) == \A j \in 1..Len(layers) : layers[j].k # "hard_sigmoid"
-NetShape(e) == (IF e.pre.kind = "none" THEN "nopre" ELSE "pre") \o "/" \o (IF HasHead(e.layers) THEN "head" ELSE "nohead") \o (IF ExactUniverse(e.layers) THEN "/E" ELSE "/T")
+NetShape(e) == (IF e.wscale # 0 THEN "wscale/" ELSE "") \o (IF e.pre.kind = "none" THEN "nopre" ELSE "pre") \o "/" \o (IF HasHead(e.layers) THEN "head" ELSE "nohead") \o (IF ExactUniverse(e.layers) THEN "/E" ELSE "/T")
 CheckDistill(e) ==
     IF e.res = "panic" THEN V("C01", e, FALSE, "afftree_from_layers panicked on a dimension-consistent network", "distill/panic/" \o NetShape(e))
     ELSE LET t == ToT(e.tree)  d == e.dim  F == NetPieces(e.layers, e.pre, d)
-             pats == IF ~HasHead(e.layers) /\ e.pre.kind = "none" THEN NetPatterns(e.layers, d) ELSE {}
+             pats == IF ~HasHead(e.layers) /\ e.pre.kind = "none" /\ e.wscale = 0 THEN NetPatterns(e.layers, d) ELSE {}
              full == {p \in pats : HasInterior(Closed(p.cons), d)}
              nonempty == {p \in pats : Feas(Closed(p.cons), d)}
          IN
@@ -103,7 +103,7 @@ CheckDistill(e) ==
          /\ V("C01", e, ~Sane(t) \/ ~AllExact(e.tree) \/ (IF ExactUniverse(e.layers) THEN GridAgrees(e, e.q, F) ELSE GridAgreesInterior(e, e.q, F)),
               "evaluate() of the distilled tree differs from the network at a grid point", "distill/grid/" \o NetShape(e))
          \* C06: number of terminals between the full-dimensional and the non-empty closed activation regions (ReLU networks, no head, no precondition)
-         /\ V("C06", e, ~(~HasHead(e.layers) /\ e.pre.kind = "none") \/ (Cardinality({p.cons : p \in full}) <= e.num_terminals /\ e.num_terminals <= Cardinality(nonempty)),
+         /\ V("C06", e, ~(~HasHead(e.layers) /\ e.pre.kind = "none" /\ e.wscale = 0) \/ (Cardinality({p.cons : p \in full}) <= e.num_terminals /\ e.num_terminals <= Cardinality(nonempty)),
               "number of terminals of a distilled network is outside [#full-dimensional activation regions, #non-empty closed regions]", "distill/terminals")
 
 \* ---------------------------------------------------------------- C18: Architecture and layer files
